@@ -544,6 +544,19 @@ def matrix_cases(draw, tier):
     return case
 
 
+@st.composite
+def long_matrix_cases(draw, tier):
+    """Matrix form on a few hundred pixels (N = H W >= 256), smooth kernels, regularisation down to 1e-12: the normal
+    equations are as ill conditioned as the documented domain (lam > 0) allows."""
+    H, W = draw(st.sampled_from([(16, 16), (16, 17), (20, 18), (16, 24), (13, 20)]))
+    spec = draw(st.sampled_from([{"kind": "gaussian", "radius": 2, "sigma": 0.8}, {"kind": "gaussian", "radius": 3, "sigma": 1.0},
+                                 {"kind": "gaussian", "radius": 2, "sigma": 2.0}, {"kind": "motion", "length": 5, "angle": 30.0},
+                                 {"kind": "motion", "length": 7, "angle": 0.0}]))
+    X, pat = draw(gen.long_qarray(H, W, "generic"))
+    return {"H": H, "W": W, "psf": spec, "X": np.abs(X) / 4.0, "pattern": pat, "A": None,
+            "lam": draw(st.sampled_from([1e-2, 1e-4, 1e-6, 1e-8, 1e-12]))}
+
+
 # ----------------------------------------------------------------------------
 # clause: the application's explicit matrix builders
 
@@ -835,6 +848,8 @@ PROPERTY = Property(
         Clause("restore_fft_long_dimension", check_restore_fft, strategy=lambda tier: long_base_case(tier),
                budget={"quick": 16, "thorough": 160}, shrink=False),
         Clause("restore_matrix", check_restore_matrix, strategy=matrix_cases, budget={"quick": 800, "thorough": 10000}),
+        Clause("restore_matrix_long_dimension", check_restore_matrix, strategy=long_matrix_cases,
+               budget={"quick": 8, "thorough": 64}, shrink=False),
         Clause("builders", check_builders, strategy=builder_cases, budget={"quick": 800, "thorough": 10000}),
         Clause("linearity", check_linearity, strategy=linearity_cases, budget={"quick": 800, "thorough": 10000}),
         Clause("lam0_inverse", check_lam0, strategy=lam0_cases, budget={"quick": 800, "thorough": 10000}),
